@@ -869,6 +869,17 @@ add({"name": "Catalog_map_sectors", "file": "dfs/dfs_catalog.cc",
                (r"out->add_file_sectors\(DFS::sector_count\(([^;]*?)\),\s*DFS::sector_count\(([^;]*?)\),\s*file_name\);", r"map_add_file_sectors(ei, sector_count(\1), sector_count(\2));", 1)],
      "dropped": ["the label (volume, directory, name) given to each sector"]})
 
+# ---- opus_cat.cc (C17): the extent loop of the OpusDiscCatalogue constructor (after std::sort by start sector) -----------
+add({"name": "opus_volume_extents", "file": "dfs/opus_cat.cc",
+     "anchor": r"unsigned long next_sector = total_disc_sectors_;", "region_end": r"\n    \}\s*\n\s*const std::vector<OpusDiscCatalogue::VolumeLocation>",
+     "sig": "static void opus_volume_extents(struct OpusCatM *self)",
+     "pre": "#define it (&h_locs[self->locations_n - 1 - ri_])\n#define total_disc_sectors_ (self->total_disc_sectors_)\n", "post": "#undef it\n#undef total_disc_sectors_\n",
+     "rules": [(r"for \(auto it = locations_\.rbegin\(\);\s*it != locations_\.rend\(\);\s*\+\+it\)", "for (size_t ri_ = 0; ri_ < self->locations_n; ++ri_) OPUS_EXTENT_LOOP_CONTRACT", 1),
+               (r"it->start_sector\(\)", "VolumeLocation_start_sector(it)", ">=2"),
+               (r"it->set_next_sector\(([^;]*)\);", r"VolumeLocation_set_next_sector(it, \1);", 1),
+               (r"std::ostringstream os;.*?throw DFS::BadFileSystem\(os\.str\(\)\);", "{ VERIF_THROW(BadFileSystem, 0); return; }", 1)],
+     "dropped": ["diagnostic text"]})
+
 # ---- cmd_cat.cc (C02: "current directory first, then by directory and name, case-insensitively") ---------------------
 add({"name": "cat_mapdir", "file": "dfs/cmd_cat.cc", "anchor": r"\[&ctx\] \(char dir\) -> char",
      "sig": "static char cat_mapdir(char ctx_current_directory, char dir)",
@@ -914,6 +925,22 @@ add({"name": "DecompressedFile_read", "file": "dfs/img_gzfile.cc",
 # ---- img_hfe.cc / img_hxcmfm.cc (C05/C06 image-level clause): sector lookup of the flux adapters, PicTrack -------------
 COPY256 = (r"std::copy\((\w+)(?:->|\.)data\.begin\(\), \1(?:->|\.)data\.end\(\), buf\.begin\(\)\);", r"flux_sector_copy(FLUXSEC(\1), &buf);")
 RET_BUF = (r"return buf;", "{ opt_SectorBuffer some_; some_.has = 1; some_.val = buf; return some_; }")
+add({"name": "hfe_opcodes", "file": "dfs/img_hfe.cc", "anchor": r"#define OPCODE_MASK\s+0xF0", "region_end": r"\n\s*\n\s*\nstruct picfileformatheader",
+     "toplevel": True, "sig": "", "rules": []})
+add({"name": "is_hfe3_opcode", "file": "dfs/img_hfe.cc", "anchor": r"bool is_hfe3_opcode\(byte val\)",
+     "sig": "static bool is_hfe3_opcode(byte val)", "rules": []})
+add({"name": "copy_hfe", "file": "dfs/img_hfe.cc",
+     "anchor": r"void copy_hfe\(bool hfe3, const byte\* begin, const byte\* end,\s*std::back_insert_iterator<std::vector<byte>> dest\)",
+     "sig": "static void copy_hfe(bool hfe3, const byte *begin, const byte *end)",
+     "rules": [(r"std::cerr << [^;]*;", "g_diag++;  /* diagnostic text dropped */", ">=1"),
+               (r"if \(DFS::verbose\)\s*\{[^{}]*\}", "/* verbose dropped */", ">=1"),
+               (r"static_cast<byte>\(", "(byte)(", ">=1"),
+               (r"std::ostringstream ss;.*?throw InvalidHfeFile\(ss\.str\(\)\);", "{ VERIF_THROW(Other, 0); return; }", 1),
+               (r"\*dest\+\+ = out;", "dest_push_back(out);", 1),
+               (r"premature_stream_end\(this_op\);", "{ VERIF_THROW(Other, 0); return; }  /* premature_stream_end throws InvalidHfeFile */", 1),
+               (r"(while \(begin != end\))", r"\1 COPY_HFE_LOOP_CONTRACT", 1),
+               (r"(for \(int bitnum = 0; bitnum < 8; \+\+bitnum\))", r"COPY_HFE_INNER_GHOST \1 COPY_HFE_INNER_CONTRACT", 1)],
+     "dropped": ["diagnostic texts"]})
 add({"name": "PicTrack_track_len", "file": "dfs/img_hfe.cc", "anchor": r"unsigned long track_len\(\) const",
      "sig": "static unsigned long PicTrack_track_len(const struct PicTrack *self)",
      "pre": "#define track_len_ (self->track_len_)\n", "post": "#undef track_len_\n", "rules": []})
